@@ -541,3 +541,100 @@ pub fn record_iter(path: &str, count: usize, seed: u64, force: &str) -> u64 {
     f.flush().unwrap();
     n
 }
+
+// ---------------------------------------------------------------------------
+// C16 I->S: random operation histories on real finder / iterator objects at
+// the real constants (needles > 32 bytes, haystacks that exhaust the adaptive
+// prefilter between other searches); validated by spec/Trace_Objects.tla.
+
+#[cfg(feature = "alloc")]
+pub fn record_obj(path: &str, count: usize, seed: u64, force: &str) -> u64 {
+    memchr::verif::set_force(force);
+    let mut f = std::io::BufWriter::new(std::fs::File::create(path).unwrap());
+    let mut r = Rng::new(seed ^ 0x0B7EC7);
+    for _ in 0..count {
+        let n = structured_needle(&mut r);
+        let mut hs: Vec<Vec<u8>> = Vec::new();
+        // haystack 1: several occurrences; 2: random structured; 3: dense false candidates (drives the prefilter inert)
+        let mut h1 = Vec::new();
+        for _ in 0..(2 + r.below(4)) {
+            h1.extend(structured_haystack(&mut r, &n).into_iter().take(40));
+            h1.extend_from_slice(&n);
+        }
+        hs.push(h1);
+        hs.push(structured_haystack(&mut r, &n));
+        let dense: Vec<u8> = (0..(100 + r.below(300))).map(|i| if n.is_empty() { b'x' } else { n[(i * 7 + i / 3) % n.len()] }).collect();
+        hs.push(dense);
+        let nops = 8 + r.below(30);
+        let mut ops: Vec<Value> = Vec::new();
+        {
+            let buf = n.clone();
+            let fw = memmem::Finder::new(&buf);
+            let rv = memmem::FinderRev::new(&buf);
+            let mut it = memmem::find_iter(&hs[0], &buf);
+            let mut rit = memmem::rfind_iter(&hs[0], &buf);
+            let mut cl: Option<memmem::FindIter<'_, '_>> = None;
+            let mut rcl: Option<memmem::FindRevIter<'_, '_>> = None;
+            let cut = r.below(nops);
+            let mut i = 0;
+            macro_rules! step {
+                ($fw:expr, $rv:expr, $it:expr, $rit:expr, $cl:expr, $rcl:expr) => {{
+                    let c = r.below(10);
+                    let k = 1 + r.below(3);
+                    let (op, kk, ret): (&str, usize, i64) = match c {
+                        0 | 1 => ("find", k, opt_to_i($fw.find(&hs[k - 1]))),
+                        2 => ("rfind", k, opt_to_i($rv.rfind(&hs[k - 1]))),
+                        3 | 4 => ("next", 0, opt_to_i($it.next())),
+                        5 => ("rnext", 0, opt_to_i($rit.next())),
+                        6 => {
+                            if $cl.is_none() {
+                                $cl = Some($it.clone());
+                                ("clone", 0, 0)
+                            } else {
+                                ("clone_next", 0, opt_to_i($cl.as_mut().unwrap().next()))
+                            }
+                        }
+                        7 => {
+                            if $rcl.is_none() {
+                                $rcl = Some($rit.clone());
+                                ("rclone", 0, 0)
+                            } else {
+                                ("rclone_next", 0, opt_to_i($rcl.as_mut().unwrap().next()))
+                            }
+                        }
+                        8 => ("needle", 0, ($fw.needle() == &n[..] && $rv.needle() == &n[..]) as i64),
+                        _ => ("find", 3, opt_to_i($fw.find(&hs[2]))),
+                    };
+                    ops.push(json!({"op": op, "k": kk, "ret": ret}));
+                }};
+            }
+            while i < cut {
+                step!(fw, rv, it, rit, cl, rcl);
+                i += 1;
+            }
+            // convert everything to the owned form, then overwrite and drop the original needle buffer
+            ops.push(json!({"op": "into_owned", "k": 0, "ret": 0}));
+            let (fw, rv, mut it, mut rit) = (fw.into_owned(), rv.into_owned(), it.into_owned(), rit.into_owned());
+            let mut cl = cl.map(|x| x.into_owned());
+            let mut rcl = rcl.map(|x| x.into_owned());
+            let mut buf = buf;
+            for x in buf.iter_mut() {
+                *x = x.wrapping_add(1);
+            }
+            drop(buf);
+            ops.push(json!({"op": "drop_buffer", "k": 0, "ret": 0}));
+            while i < nops {
+                step!(fw, rv, it, rit, cl, rcl);
+                i += 1;
+            }
+        }
+        writeln!(f, "{}", json!({"k": "obj", "n": n, "hs": hs, "ops": ops})).unwrap();
+    }
+    f.flush().unwrap();
+    count as u64
+}
+
+#[cfg(not(feature = "alloc"))]
+pub fn record_obj(_path: &str, _count: usize, _seed: u64, _force: &str) -> u64 {
+    0
+}
